@@ -34,7 +34,10 @@ class HBase(BaseException):
 
 
 EXC = {"ValueError": ValueError, "KeyError": KeyError, "RuntimeError": RuntimeError,
-       "HErr": HErr, "HErr2": HErr2, "ZeroDivisionError": ZeroDivisionError, "HBase": HBase}
+       "HErr": HErr, "HErr2": HErr2, "ZeroDivisionError": ZeroDivisionError, "HBase": HBase,
+       # exception types the kernel itself catches somewhere for its own purposes: a user's failure of that type is still a failure
+       "IndexError": IndexError, "AttributeError": AttributeError, "TypeError": TypeError, "StopIteration": StopIteration,
+       "LookupError": LookupError}
 
 
 def mkexc(spec):
@@ -1130,7 +1133,7 @@ def drive_exhaust(env, interp, budget=STEP_BUDGET):
     h = env.h
     n = 0
     while True:
-        if env.peek() == inf:
+        if env.peek() == inf and not getattr(env, "_queue", None):      # an occurrence due at infinity is still an occurrence
             return "exhausted"
         n += 1
         if n > budget:
